@@ -38,6 +38,7 @@ func prop(c Case) error {
 		return err
 	}
 	defer r.Close()
+	tainted := false
 	for i, op := range c.Ops {
 		pt, err := r.Apply(op)
 		if err != nil {
@@ -46,12 +47,15 @@ func prop(c Case) error {
 		if pt == tsrun.None {
 			continue
 		}
+		if r.WideAtCornerOnTrickTerminal() {
+			tainted = true // the known defect damages the display from here on
+		}
 		if r.Corrupted {
 			// the terminal's contents were scrambled behind the library's back:
 			// only a Sync / resize redraw has to repair that
 			if err := r.CheckStrict(); err != nil {
 				tag := ""
-				if r.WideAtCornerOnTrickTerminal() {
+				if tainted || r.WideAtCornerOnTrickTerminal() {
 					tag = "[" + knownWideCorner + "] "
 				}
 				return fmt.Errorf("%sstep %d (%s): %v", tag, i, op.Kind, err)
@@ -60,7 +64,7 @@ func prop(c Case) error {
 		}
 		if err := r.CheckDisplay(); err != nil {
 			tag := ""
-			if r.WideAtCornerOnTrickTerminal() {
+			if tainted || r.WideAtCornerOnTrickTerminal() {
 				tag = "[" + knownWideCorner + "] "
 			}
 			return fmt.Errorf("%sstep %d (%s) on %s/%s %dx%d: %v", tag, i, op.Kind, c.Cfg.Entry, c.Cfg.Color, r.Shadow.W, r.Shadow.H, err)
